@@ -75,7 +75,7 @@ ProviderForm(c) == CASE SaltRes(c) = "salted" -> "salted"
 
 \* what the remote can see of a token sent in form f ("salted" | "same" | "both" | "dropped")
 Obs(f) == [leak |-> f \in {"same", "both"}, same |-> f \in {"same", "both"},
-           salted |-> f \in {"salted", "both"}, twice |-> FALSE,
+           salted |-> f \in {"salted", "both"}, twice |-> FALSE, uuid |-> f # "dropped",
            where |-> IF f \in {"same", "both"} THEN <<"somewhere">> ELSE <<>>]
 
 Rank(p) == CASE p \in {"oauth2", "bearer"} -> 1 [] p = "basic" -> 2 [] p = "query" -> 3
